@@ -53,6 +53,7 @@ inductive Fn
   | settledElem (c idx cell : Nat) (rej : Bool)      -- builtin_promise.go:453
   | anyElem (c idx cell : Nat)                       -- builtin_promise.go:497
   | asyncFul (ar : Nat) | asyncRej (ar : Nat)        -- func.go:688 / 699
+  | logRes (c : Nat) | logRej (c : Nat)              -- resolve/reject functions of a user-defined (plain) constructor
   deriving Inhabited
 
 /-- promiseCapability (builtin_promise.go:35). -/
